@@ -9,20 +9,25 @@ R03.6 the template model's fluid ODE agrees term-wise with shockDE
 
 Locals and nested helper functions are identified by their role (the function handed to solve_ivp as `events`, the function whose root
 is searched, the local holding a solve_ivp result, the summand of the returned efficiency factor that integrates over a given
-solution ...), never by their spelling; everything arithmetic is compared at term level.
+solution ...), never by their spelling; everything arithmetic is compared at term level.  A function with such a role need not be a nested
+closure: a method (`self.<m>`), a module-level function, a lambda, and `functools.partial(f, *a, **k)` (= f with those parameters bound) are
+followed as well ("callables by role" below); the `.terminal` flag is looked for where solve_ivp finds it (on the local holding the event
+object; for a plain method / function also where it is defined).  Values packed into a namedtuple / small dataclass are read as the tuple of
+their fields (`records_written_out`).
 """
 from __future__ import annotations
 
 import ast
+import copy
 
 import sympy as sp
 
-from ..core import Remap, AnchorMissing, Check, Undecided, calls_in, dotted, kwarg, own_nodes, src
+from ..core import Remap, AnchorMissing, Check, FuncInfo, Undecided, calls_in, dotted, kwarg, own_nodes, src
 from ..flow import CFG
 from ..hydro import HY, TM, fn, hydro_extractor, n, th
 from ..nf import with_closure_temporaries, Ctx, eqx, has, match
 from ..terms import Extractor, ITE, is_zero
-from .c06 import written_out
+from .c06 import _local_func, written_out
 
 LEVEL = "other"
 SIMPSON = sp.Function("simpson")
@@ -57,31 +62,640 @@ def _assigned_name(fnode, call) -> str | None:
     return None
 
 
-def _nested_by_role(S, outer: str, fo, calls, kw: str, pos: int, what: str):
-    """the nested function of `outer` that every one of `calls` receives as argument kw/pos"""
+# ------------------------------------------------------------------------------------------------ callables by role
+#
+# The function handed to solve_ivp as `events` / to root_scalar as `f` is identified by that role.  It may be a nested function of the
+# routine, a method of the class (`self.<m>`), a module-level function, a lambda, any of these held in a local, or a `functools.partial`
+# of one of them: `partial(f, *a, **k)` is f with those parameters bound (the bound values are written as assignments at the top of a copy
+# of f's body, so that everything downstream reads one ordinary function).
+
+
+class _Callable:
+    def __init__(self, fi, base, kind: str, holders: set, partial: bool):
+        self.fi = fi                # the function (parameters bound by functools.partial are assigned at the top of its body)
+        self.base = base            # the function as defined
+        self.kind = kind            # 'nested' | 'method' | 'module' | 'lambda'
+        self.holders = holders      # locals of the routine that hold this very object (for a nested function: its own name too)
+        self.partial = partial      # a functools.partial object: a new object, attributes of the wrapped function are not seen through it
+        self.bound = {}             # parameter of the function as defined -> the expression functools.partial binds it to
+        self.skip_first = False     # a bound method: positional arguments start at the second parameter
+
+    def ident(self):
+        return (id(self.base.node), ast.dump(self.fi.node), self.partial)
+
+
+def _is_partial(S, fo, call) -> bool:
+    d = dotted(call.func) if isinstance(call, ast.Call) else None
+    if d == "functools.partial":
+        return S.modules[fo.module].imports.get("functools") == "functools"
+    return d is not None and "." not in d and S.modules[fo.module].imports.get(d) == "functools:partial"
+
+
+def _static(fi) -> bool:
+    return any((dotted(d) or "") == "staticmethod" for d in fi.node.decorator_list)
+
+
+def _bound_names(fnode) -> set:
+    a = fnode.args
+    out = {x.arg for x in a.posonlyargs + a.args + a.kwonlyargs} | ({a.vararg.arg} if a.vararg else set()) | ({a.kwarg.arg} if a.kwarg else set())
+    for x in ast.walk(fnode):
+        if isinstance(x, ast.Name) and isinstance(x.ctx, (ast.Store, ast.Del)):
+            out.add(x.id)
+        elif isinstance(x, ast.arg):
+            out.add(x.arg)
+        elif isinstance(x, (ast.FunctionDef, ast.AsyncFunctionDef, ast.ClassDef)) and x is not fnode:
+            out.add(x.name)
+    return out
+
+
+def _bind(S, fo, fi, pos: list, kws: dict, skip_first: bool):
+    """fi with its leading positional parameters bound to `pos` and the named ones to `kws` (values are expressions of the routine fo):
+    the bound parameters leave the signature and are assigned at the top of the body"""
+    if not pos and not kws:
+        return fi, {}
+    co = Ctx(S, fo)
+    node = copy.deepcopy(fi.node)
+    a = node.args
+    if a.vararg is not None or a.kwarg is not None:
+        raise Undecided(f"{fi.qual}: functools.partial of a function with *args / **kwargs")
+    plain = list(a.posonlyargs) + list(a.args)
+    dflt = [None] * (len(plain) - len(a.defaults)) + list(a.defaults)
+    first = 1 if skip_first and plain else 0
+    if len(pos) > len(plain) - first:
+        raise Undecided(f"{fi.qual}: functools.partial binds more positional arguments than the function has")
+    bind = {plain[first + i].arg: e for i, e in enumerate(pos)}
+    named = {x.arg for x in list(a.args) + list(a.kwonlyargs)} - ({plain[0].arg} if first else set())
+    for k, e in kws.items():
+        if k not in named or k in bind:
+            raise Undecided(f"{fi.qual}: functools.partial binds `{k}`, which is not a free parameter")
+        bind[k] = e
+    vals = {k: co.resolve(e) for k, e in bind.items()}
+    given = dict(bind)
+    # the bound values are expressions of the routine: a local of the function that has the name of something they read is renamed
+    reads = {y.id for e in vals.values() for y in ast.walk(e) if isinstance(y, ast.Name)}
+    clash = (reads & _bound_names(node)) - {"self", "cls"}
+    if clash:
+        taken = _bound_names(node) | reads | {y.id for y in ast.walk(node) if isinstance(y, ast.Name)}
+        ren = {}
+        for nm in sorted(clash):
+            k_ = 1
+            while f"{nm}__{k_}" in taken:
+                k_ += 1
+            ren[nm] = f"{nm}__{k_}"
+            taken.add(ren[nm])
+        for y in ast.walk(node):
+            if isinstance(y, ast.Name) and y.id in ren:
+                y.id = ren[y.id]
+            elif isinstance(y, ast.arg) and y.arg in ren:
+                y.arg = ren[y.arg]
+        vals = {ren.get(k, k): e for k, e in vals.items()}
+    keep = [(x, d) for x, d in zip(plain, dflt) if x.arg not in vals]
+    npos = len([x for x in a.posonlyargs if x.arg not in vals])
+    a.posonlyargs, a.args = [x for x, _ in keep[:npos]], [x for x, _ in keep[npos:]]
+    a.defaults = [d for _, d in keep if d is not None]
+    kwkeep = [(x, d) for x, d in zip(a.kwonlyargs, a.kw_defaults) if x.arg not in vals]
+    a.kwonlyargs, a.kw_defaults = [x for x, _ in kwkeep], [d for _, d in kwkeep]
+    head = [ast.Assign(targets=[ast.Name(id=k, ctx=ast.Store())], value=e) for k, e in vals.items()]
+    doc = 1 if node.body and isinstance(node.body[0], ast.Expr) and isinstance(node.body[0].value, ast.Constant) and isinstance(node.body[0].value.value, str) else 0
+    for st in head:
+        ast.copy_location(st, node.body[doc] if len(node.body) > doc else node)
+    node.body[doc:doc] = head
+    ast.fix_missing_locations(node)
+    # `self` in the bound values is the routine's: the copy is read as a function of the routine's class
+    return FuncInfo(fi.module, fi.qual, node, fi.cls or fo.cls, fi.parent), given
+
+
+def _resolve_callable(S, fo, e, _depth: int = 0):
+    """the function a callable expression of routine fo denotes (None when it is none of the recognised forms)"""
     cx = Ctx(S, fo)
-    names = set()
+    defs = cx.local_defs()
+    stored = {x.id for x in own_nodes(fo.node) if isinstance(x, ast.Name) and isinstance(x.ctx, (ast.Store, ast.Del))} | set(_params(fo)) | {"self", "cls"}
+    holders: set = set()
+    for _ in range(8):
+        if isinstance(e, ast.Name) and e.id in defs:
+            holders.add(e.id)
+            e = defs[e.id]
+        else:
+            break
+    mod = S.modules[fo.module]
+    if isinstance(e, ast.Name):
+        loc = _local_func(S, fo, e.id)
+        if loc is not None:
+            return _Callable(loc, loc, "nested", holders | {e.id}, False)
+        if e.id in stored:
+            return None
+        q = f"{fo.module}:{e.id}" if e.id in mod.funcs else S.resolve_import(fo.module, e.id)
+        if q and S.has_func(q) and S.func(q).parent is None and S.func(q).cls is None:
+            return _Callable(S.func(q), S.func(q), "module", holders, False)
+        return None
+    if isinstance(e, ast.Attribute) and isinstance(e.value, ast.Name) and fo.cls and e.value.id in ("self", "cls", fo.cls):
+        m = S.method(f"{fo.module}:{fo.cls}", e.attr)
+        if m is None:
+            return None
+        if e.value.id != "self" and not _static(m):
+            return None              # an unbound method: its first parameter is not bound to the object
+        c = _Callable(m, m, "method", holders, False)
+        c.skip_first = not _static(m)
+        return c
+    if isinstance(e, ast.Lambda):
+        f = ast.FunctionDef(name="lambda__", args=copy.deepcopy(e.args), body=[ast.Return(value=copy.deepcopy(e.body))], decorator_list=[], returns=None, type_params=[])
+        ast.copy_location(f, e)
+        ast.copy_location(f.body[0], e.body)
+        ast.fix_missing_locations(f)
+        fi = FuncInfo(fo.module, f"{fo.qual}.<lambda>", f, fo.cls, fo)
+        return _Callable(fi, fi, "lambda", holders, False)
+    if isinstance(e, ast.Call) and _is_partial(S, fo, e) and e.args and _depth < 4 and not any(isinstance(x, ast.Starred) for x in e.args) \
+            and not any(k.arg is None for k in e.keywords):
+        inner = _resolve_callable(S, fo, e.args[0], _depth + 1)
+        if inner is None:
+            return None
+        fi, given = _bind(S, fo, inner.fi, list(e.args[1:]), {k.arg: k.value for k in e.keywords}, inner.skip_first)
+        c = _Callable(fi, inner.base, inner.kind, holders, True)
+        c.skip_first = inner.skip_first
+        c.bound = {**inner.bound, **given}
+        return c
+    return None
+
+
+def _ode_of(S, fo, call, cx):
+    """(the right-hand side handed to solve_ivp is Hydrodynamics.shockDE, the value given to its shockWave parameter -- bound with functools.partial
+    or passed through `args=(value,)` -- or None when it is left at its default)"""
+    f = kwarg(call, "fun", 0)
+    r = _resolve_callable(S, fo, f) if f is not None else None
+    sd = S.func(f"{HY}.shockDE")
+    p = _params(sd)
+    if r is None or r.base is not sd or len(p) != 3 or set(r.bound) - {p[2]}:
+        return False, None
+    wave = r.bound.get(p[2])
+    a = kwarg(call, "args", 8)
+    if a is not None:
+        a = _definition(cx, a)
+        if wave is None and isinstance(a, (ast.Tuple, ast.List)) and len(a.elts) == 1 and not isinstance(a.elts[0], ast.Starred):
+            wave = a.elts[0]
+        else:
+            wave = a            # (not a one-element display, or given twice: no wave can be read off)
+    return True, wave
+
+
+def _by_role(S, outer: str, fo, calls, kw: str, pos: int, what: str) -> _Callable:
+    """the function that every one of `calls` receives as argument kw/pos"""
+    found = {}
     for c in calls:
         a = kwarg(c, kw, pos)
-        a = _definition(cx, a) if a is not None else None
-        names.add(a.id if isinstance(a, ast.Name) else None)
-    if len(names) != 1 or None in names or not S.has_func(f"{outer}.{next(iter(names))}"):
-        raise AnchorMissing(f"{outer.split(':')[-1]}: the nested function used as {what} not found")
-    return S.func(f"{outer}.{next(iter(names))}")
+        r = _resolve_callable(S, fo, a) if a is not None else None
+        found[r.ident() if r is not None else None] = r
+    if len(found) != 1 or None in found:
+        raise AnchorMissing(f"{outer.split(':')[-1]}: the function used as {what} not found")
+    return next(iter(found.values()))
+
+
+def _nested_by_role(S, outer: str, fo, calls, kw: str, pos: int, what: str):
+    return _by_role(S, outer, fo, calls, kw, pos, what).fi
+
+
+class _Flag:
+    def __init__(self, value, ctx, local: bool):
+        self.value, self.ctx, self.local = value, ctx, local
+
+
+def _attr_stores(nodes, attr: str):
+    """(base expression, assigned value or None when it is not a plain `base.attr = value`) of every store to `.attr` among nodes"""
+    for st in nodes:
+        tg = list(st.targets) if isinstance(st, (ast.Assign, ast.Delete)) else [st.target] if isinstance(st, (ast.AugAssign, ast.AnnAssign)) else []
+        plain = isinstance(st, ast.Assign) and len(st.targets) == 1 and isinstance(st.targets[0], ast.Attribute)
+        while tg:
+            t = tg.pop()
+            if isinstance(t, (ast.Tuple, ast.List)):
+                tg.extend(t.elts)
+            elif isinstance(t, ast.Starred):
+                tg.append(t.value)
+            elif isinstance(t, ast.Attribute) and t.attr == attr:
+                yield t.value, (st.value if plain else None)
+
+
+def _scope_stmts(body):
+    """statements of a class / module body (compound statements entered, function and class bodies not)"""
+    for st in body:
+        if isinstance(st, (ast.FunctionDef, ast.AsyncFunctionDef, ast.ClassDef)):
+            continue
+        yield st
+        for fld in ("body", "orelse", "finalbody"):
+            yield from _scope_stmts(getattr(st, fld, None) or [])
+        for h in getattr(st, "handlers", []) or []:
+            yield from _scope_stmts(h.body)
+
+
+def _terminal_flags(S, fo, c: _Callable) -> list:
+    """every store to the `.terminal` attribute that solve_ivp reads off the event object c: on a local of the routine that holds the object;
+    for a plain function (no partial object in between) also on the function itself, where it is defined (class body / module level)"""
+    co = Ctx(S, fo)
+    out = []
+    short = c.base.node.name
+    owner = c.base.cls
+    mod = S.modules[c.base.module]
+    for base, val in _attr_stores(own_nodes(fo.node), "terminal"):
+        d = dotted(base)
+        if isinstance(base, ast.Name) and base.id in c.holders:
+            # (a bound method does not take attributes: such a store is never the working flag)
+            out.append(_Flag(val if c.partial or c.kind != "method" else None, co, True))
+        elif not c.partial and c.kind == "module" and d == short:
+            out.append(_Flag(val, co, True))
+        elif not c.partial and c.kind == "method" and d in (f"self.{short}.__func__", f"{owner}.{short}", f"type(self).{short}"):
+            out.append(_Flag(val, co, True))
+        elif not c.partial and c.kind == "method" and d == f"self.{short}":
+            out.append(_Flag(None, co, True))
+    if c.partial or c.kind not in ("method", "module"):
+        return out
+    if c.kind == "method" and owner in mod.classes:
+        for base, val in _attr_stores(_scope_stmts(mod.classes[owner].node.body), "terminal"):
+            if isinstance(base, ast.Name) and base.id == short:
+                out.append(_Flag(val, None, False))
+    for base, val in _attr_stores(_scope_stmts(mod.tree.body), "terminal"):
+        if dotted(base) == (f"{owner}.{short}" if c.kind == "method" else short):
+            out.append(_Flag(val, None, False))
+    # anywhere else in the module: a store that names the function is a second setter of the flag
+    for f in mod.funcs.values():
+        if f is fo or f.parent is not None:
+            continue
+        for base, val in _attr_stores(ast.walk(f.node), "terminal"):
+            if short in (dotted(base) or "").split("."):
+                out.append(_Flag(None, None, False))
+    return out
 
 
 def _event_function(S, outer: str):
-    """(nested front-condition function, the solve_ivp calls it terminates).  The function is the one handed to solve_ivp as `events`;
-    when no integration uses an event (a violation reported by the caller) it is the nested function whose `.terminal` attribute is set."""
+    """(front-condition function, the solve_ivp calls it terminates).  The function is the one handed to solve_ivp as `events`; when no
+    integration uses an event (a violation reported by the caller) it is the function of the routine whose `.terminal` attribute is set."""
     fo = S.func(outer)
     ivp = [c for c in calls_in(fo.node, "solve_ivp") if kwarg(c, "events", 6) is not None]
     if ivp:
-        return _nested_by_role(S, outer, fo, ivp, "events", 6, "`events` of solve_ivp"), ivp
-    marked = {st.targets[0].value.id for st in own_nodes(fo.node) if isinstance(st, ast.Assign) and isinstance(st.targets[0], ast.Attribute)
-              and st.targets[0].attr == "terminal" and isinstance(st.targets[0].value, ast.Name) and S.has_func(f"{outer}.{st.targets[0].value.id}")}
-    if len(marked) != 1:
-        raise AnchorMissing(f"{outer.split(':')[-1]}: no solve_ivp call with an `events` function and no nested function marked `.terminal`")
-    return S.func(f"{outer}.{next(iter(marked))}"), ivp
+        return _by_role(S, outer, fo, ivp, "events", 6, "`events` of solve_ivp"), ivp
+    cands = {}
+    seen = [x for x in own_nodes(fo.node) if isinstance(x, (ast.Name, ast.Attribute)) and isinstance(x.ctx, ast.Load)] \
+        + [ast.Name(id=x.name, ctx=ast.Load()) for x in own_nodes(fo.node) if isinstance(x, ast.FunctionDef)]
+    for x in seen:
+        if isinstance(x, ast.Attribute) and not (isinstance(x.value, ast.Name) and x.value.id == "self"):
+            continue
+        try:
+            r = _resolve_callable(S, fo, x)
+        except Undecided:
+            r = None
+        if r is not None and _terminal_flags(S, fo, r):
+            cands.setdefault(r.ident(), r)
+    if len(cands) != 1:
+        raise AnchorMissing(f"{outer.split(':')[-1]}: no solve_ivp call with an `events` function and no function marked `.terminal`")
+    return next(iter(cands.values())), ivp
+
+
+# ------------------------------------------------------------------------------------------------ records written out as tuples
+#
+# A group of values that belong together may be packed into a small record -- a namedtuple (`collections.namedtuple`, `typing.NamedTuple`,
+# class form or call form) or a field-only dataclass -- defined in the routine or in its module.  A namedtuple IS the tuple of its fields in
+# declaration order, `r.f` is `r[k]`; `records_written_out` rewrites a copy of the routine accordingly:
+#   1. a constructor call of a namedtuple (positional / keyword arguments, declared defaults) becomes the tuple display of its fields
+#   2. a local that only ever holds records of one type (every store is `N = R(..)`): `N.f` becomes `N[k]`, also inside nested functions
+#      (for a dataclass: only when N is used in no other way, and no field is ever stored to)
+#   3. a local whose every store is a tuple display of one length and whose every use is `N[<literal>]` or `a, b = N` becomes one local
+#      per slot (`N__0, N__1 = e0, e1`)
+# so that the rules see the values themselves (`a, b, c = e0, e1, e2`), as before the record was introduced.
+
+
+def _str_fields(spec):
+    if isinstance(spec, ast.Constant) and isinstance(spec.value, str):
+        return spec.value.replace(",", " ").split()
+    if isinstance(spec, (ast.List, ast.Tuple)):
+        out = []
+        for e in spec.elts:
+            if isinstance(e, ast.Constant) and isinstance(e.value, str):
+                out.append(e.value)
+            elif isinstance(e, (ast.Tuple, ast.List)) and e.elts and isinstance(e.elts[0], ast.Constant) and isinstance(e.elts[0].value, str):
+                out.append(e.elts[0].value)
+            else:
+                return None
+        return out
+    return None
+
+
+def _record_types(S, fi) -> dict:
+    """record type name -> (fields, {field: default expression}, is a tuple)"""
+    mod = S.modules[fi.module]
+    out: dict = {}
+    if not set(mod.imports.values()) & {"collections:namedtuple", "collections", "typing:NamedTuple", "typing", "dataclasses:dataclass", "dataclasses"}:
+        return out
+
+    def from_call(name, v):
+        d = (dotted(v.func) or "") if isinstance(v, ast.Call) else ""
+        imp = mod.imports.get(d.split(".")[0], "")
+        kind = None
+        if d in ("namedtuple", "collections.namedtuple") and imp in ("collections:namedtuple", "collections"):
+            kind = "nt"
+        elif d in ("NamedTuple", "typing.NamedTuple") and imp in ("typing:NamedTuple", "typing"):
+            kind = "NT"
+        if kind is None or len(v.args) < 2 or any(k.arg not in ("defaults",) for k in v.keywords) or len(v.args) > 2:
+            return None
+        flds = _str_fields(v.args[1])
+        if not flds or len(set(flds)) != len(flds):
+            return None
+        dfl = {}
+        dk = kwarg(v, "defaults")
+        if dk is not None:
+            if not isinstance(dk, (ast.Tuple, ast.List)) or len(dk.elts) > len(flds):
+                return None
+            dfl = dict(zip(flds[len(flds) - len(dk.elts):], dk.elts))
+        return flds, dfl, True
+
+    def from_class(c):
+        bases = {dotted(b) or "" for b in c.bases}
+        decos = {dotted(d.func if isinstance(d, ast.Call) else d) or "" for d in c.decorator_list}
+        is_nt = bool(bases) and bases <= {"NamedTuple", "typing.NamedTuple"} and mod.imports.get("NamedTuple" if "NamedTuple" in bases else "typing") in ("typing:NamedTuple", "typing")
+        is_dc = not bases and bool(decos) and decos <= {"dataclass", "dataclasses.dataclass"} \
+            and all(not d.args and {k.arg for k in d.keywords} <= {"frozen", "slots", "eq", "order", "repr", "unsafe_hash", "match_args"}
+                    for d in c.decorator_list if isinstance(d, ast.Call))
+        if not (is_nt or is_dc) or c.keywords:
+            return None
+        flds, dfl = [], {}
+        for st in c.body:
+            if isinstance(st, ast.Expr) and isinstance(st.value, ast.Constant) and isinstance(st.value.value, str):
+                continue
+            if isinstance(st, ast.AnnAssign) and isinstance(st.target, ast.Name):
+                flds.append(st.target.id)
+                if st.value is not None:
+                    if isinstance(st.value, ast.Call):
+                        return None          # field(default_factory=..) and the like
+                    dfl[st.target.id] = st.value
+                continue
+            return None                      # methods, class variables: more than a record
+        return (flds, dfl, is_nt) if flds else None
+
+    def scan(stmts):
+        for st in stmts:
+            if isinstance(st, ast.ClassDef):
+                r = from_class(st)
+                if r:
+                    out[st.name] = r
+            elif isinstance(st, ast.Assign) and len(st.targets) == 1 and isinstance(st.targets[0], ast.Name):
+                r = from_call(st.targets[0].id, st.value)
+                if r:
+                    out[st.targets[0].id] = r
+
+    scan(list(_scope_stmts(mod.tree.body)) + [c for c in mod.tree.body if isinstance(c, ast.ClassDef)])
+    chain = []
+    f = fi
+    while f is not None:
+        chain.append(f)
+        f = f.parent
+    for f in reversed(chain):
+        scan([x for x in own_nodes(f.node) if isinstance(x, (ast.ClassDef, ast.Assign))])
+    # a type name that is bound more than once (or is also a local / parameter of the routine) is not one fixed type
+    counts: dict = {}
+
+    def bump(nm):
+        counts[nm] = counts.get(nm, 0) + 1
+
+    for f in chain:
+        for p_ in f.params():
+            bump(p_)
+        for x in own_nodes(f.node):
+            if isinstance(x, ast.Name) and isinstance(x.ctx, (ast.Store, ast.Del)):
+                bump(x.id)
+            elif isinstance(x, (ast.ClassDef, ast.FunctionDef, ast.AsyncFunctionDef)):
+                bump(x.name)
+    for st in _scope_stmts(mod.tree.body):
+        for x in ast.walk(st):
+            if isinstance(x, ast.Name) and isinstance(x.ctx, (ast.Store, ast.Del)):
+                bump(x.id)
+    for c in mod.tree.body:
+        if isinstance(c, (ast.ClassDef, ast.FunctionDef, ast.AsyncFunctionDef)):
+            bump(c.name)
+    return {nm: r for nm, r in out.items() if counts.get(nm, 0) == 1}
+
+
+def _record_args(call: ast.Call, rec):
+    """the field values of a constructor call in declaration order (None when a field stays open or the call is not plain)"""
+    flds, dfl, _ = rec
+    if any(isinstance(a, ast.Starred) for a in call.args) or any(k.arg is None for k in call.keywords) or len(call.args) > len(flds):
+        return None
+    bind = dict(zip(flds, call.args))
+    for k in call.keywords:
+        if k.arg not in flds or k.arg in bind:
+            return None
+        bind[k.arg] = k.value
+    for f_, d in dfl.items():
+        bind.setdefault(f_, d)
+    return [bind[f_] for f_ in flds] if all(f_ in bind for f_ in flds) else None
+
+
+def _scope_info(node):
+    """(own-scope nodes, names bound inside nested functions / lambdas / classes, parent map)"""
+    own = list(own_nodes(node))
+    own_ids = {id(x) for x in own}
+    nested_bound = set()
+    parent = {}
+    for x in ast.walk(node):
+        for c in ast.iter_child_nodes(x):
+            parent[id(c)] = x
+        if x is node or id(x) in own_ids:
+            continue
+        if isinstance(x, ast.Name) and isinstance(x.ctx, (ast.Store, ast.Del)):
+            nested_bound.add(x.id)
+        elif isinstance(x, ast.arg):
+            nested_bound.add(x.arg)
+        elif isinstance(x, (ast.Global, ast.Nonlocal)):
+            nested_bound |= set(x.names)
+        elif isinstance(x, (ast.FunctionDef, ast.AsyncFunctionDef, ast.ClassDef)):
+            nested_bound.add(x.name)
+    # (lambdas are not entered by own_nodes' callers here: their parameters count as nested bindings)
+    for x in own:
+        if isinstance(x, ast.Lambda):
+            for y in ast.walk(x.args):
+                if isinstance(y, ast.arg):
+                    nested_bound.add(y.arg)
+        elif isinstance(x, (ast.Global, ast.Nonlocal)):
+            nested_bound |= set(x.names)
+        elif isinstance(x, ast.comprehension):
+            for y in ast.walk(x.target):
+                if isinstance(y, ast.Name):
+                    nested_bound.add(y.id)
+    return own, own_ids, nested_bound, parent
+
+
+def _plain_stores(own, params) -> dict:
+    """name -> list of its plain assignments `N = value` when every binding of N in the scope is one (else None)"""
+    out: dict = {}
+    for x in own:
+        if isinstance(x, ast.Assign) and len(x.targets) == 1 and isinstance(x.targets[0], ast.Name):
+            nm = x.targets[0].id
+            if out.get(nm, []) is not None:
+                out.setdefault(nm, []).append(x)
+    for x in own:
+        if isinstance(x, ast.Name) and isinstance(x.ctx, (ast.Store, ast.Del)) and x.id in out and out[x.id] is not None \
+                and not any(st.targets[0] is x for st in out[x.id]):
+            out[x.id] = None
+        elif isinstance(x, (ast.FunctionDef, ast.AsyncFunctionDef, ast.ClassDef)) and x.name in out:
+            out[x.name] = None
+        elif isinstance(x, ast.ExceptHandler) and x.name in out:
+            out[x.name] = None
+    return {k: v for k, v in out.items() if v and k not in params}
+
+
+_RECORDS: dict = {}
+
+
+def records_written_out(S, fi) -> FuncInfo:
+    key = (id(S), fi.name, id(fi.node))
+    hit = _RECORDS.get(key)
+    if hit is not None:
+        return hit[1]
+    out = _records_written_out(S, fi)
+    _RECORDS[key] = (fi.node, out)
+    return out
+
+
+def _records_written_out(S, fi) -> FuncInfo:
+    recs = _record_types(S, fi)
+    if not recs and not any(isinstance(x, ast.Assign) and len(x.targets) == 1 and isinstance(x.targets[0], ast.Name) and isinstance(x.value, ast.Tuple)
+                            for x in own_nodes(fi.node)):
+        return fi
+    node = copy.deepcopy(fi.node)
+    changed = False
+    params = set(FuncInfo(fi.module, fi.qual, node, fi.cls, fi.parent).params()) | {"self", "cls"}
+    if node.args.vararg:
+        params.add(node.args.vararg.arg)
+    if node.args.kwarg:
+        params.add(node.args.kwarg.arg)
+    if recs:
+        own, own_ids, nested_bound, parent = _scope_info(node)
+        # 2. locals that only ever hold records of one type
+        for nm, sts in _plain_stores(own, params).items():
+            if nm in nested_bound:
+                continue
+            types = {(dotted(st.value.func) if isinstance(st.value, ast.Call) else None) for st in sts}
+            if len(types) != 1 or next(iter(types)) not in recs:
+                continue
+            rec = recs[next(iter(types))]
+            if any(_record_args(st.value, rec) is None for st in sts):
+                continue
+            flds = rec[0]
+            uses = [x for x in ast.walk(node) if isinstance(x, ast.Name) and x.id == nm and isinstance(x.ctx, ast.Load)]
+            attr_uses = [(x, parent.get(id(x))) for x in uses]
+            if any(isinstance(p_, ast.Attribute) and p_.value is x and not isinstance(p_.ctx, ast.Load) for x, p_ in attr_uses):
+                continue          # a field is stored to / deleted
+            if any(isinstance(p_, ast.Attribute) and p_.value is x and p_.attr not in flds for x, p_ in attr_uses):
+                continue          # _replace / _asdict / ...: more than a tuple
+            if not rec[2] and not all(isinstance(p_, ast.Attribute) and p_.value is x for x, p_ in attr_uses):
+                continue          # a dataclass object that is handed on as such
+            for x, p_ in attr_uses:
+                if isinstance(p_, ast.Attribute) and p_.value is x:
+                    new = ast.Subscript(value=x, slice=ast.Constant(value=flds.index(p_.attr)), ctx=ast.Load())
+                    ast.copy_location(new, p_)
+                    ast.copy_location(new.slice, p_)
+                    _replace_child(parent.get(id(p_)), p_, new)
+                    parent[id(new)] = parent.get(id(p_))
+                    parent[id(x)] = new
+                    changed = True
+            if not rec[2]:
+                for st in sts:
+                    st.value = ast.copy_location(ast.Tuple(elts=_record_args(st.value, rec), ctx=ast.Load()), st.value)
+                    changed = True
+
+        # 1. constructor calls of namedtuples
+        class T(ast.NodeTransformer):
+            def visit_Call(self, x):
+                self.generic_visit(x)
+                d = dotted(x.func)
+                if d in recs and recs[d][2]:
+                    a = _record_args(x, recs[d])
+                    if a is not None:
+                        nonlocal changed
+                        changed = True
+                        return ast.copy_location(ast.Tuple(elts=a, ctx=ast.Load()), x)
+                return x
+
+        for i, st in enumerate(node.body):
+            node.body[i] = T().visit(st)
+    # 3. one local per slot
+    changed = _scalarise_tuples(node, params) or changed
+    if not changed:
+        return fi
+    ast.fix_missing_locations(node)
+    return FuncInfo(fi.module, fi.qual, node, fi.cls, fi.parent)
+
+
+def _replace_child(par, old, new) -> None:
+    for fld, val in ast.iter_fields(par):
+        if val is old:
+            setattr(par, fld, new)
+            return
+        if isinstance(val, list):
+            for i, y in enumerate(val):
+                if y is old:
+                    val[i] = new
+                    return
+
+
+def _lit_index(sl):
+    if isinstance(sl, ast.Constant) and isinstance(sl.value, int) and not isinstance(sl.value, bool):
+        return sl.value
+    if isinstance(sl, ast.UnaryOp) and isinstance(sl.op, ast.USub) and isinstance(sl.operand, ast.Constant) and isinstance(sl.operand.value, int) \
+            and not isinstance(sl.operand.value, bool):
+        return -sl.operand.value
+    return None
+
+
+def _scalarise_tuples(node, params) -> bool:
+    own, own_ids, nested_bound, parent = _scope_info(node)
+    taken = {x.id for x in ast.walk(node) if isinstance(x, ast.Name)} | {x.arg for x in ast.walk(node) if isinstance(x, ast.arg)}
+    changed = False
+    for nm, sts in _plain_stores(own, params).items():
+        if nm in nested_bound or not all(isinstance(st.value, ast.Tuple) and not any(isinstance(e, ast.Starred) for e in st.value.elts) for st in sts):
+            continue
+        sizes = {len(st.value.elts) for st in sts}
+        if len(sizes) != 1 or not 1 <= next(iter(sizes)) <= 8:
+            continue
+        n_ = next(iter(sizes))
+        sites = []
+        ok = True
+        for x in ast.walk(node):
+            if not (isinstance(x, ast.Name) and x.id == nm and isinstance(x.ctx, ast.Load)):
+                continue
+            p_ = parent.get(id(x))
+            if isinstance(p_, ast.Subscript) and p_.value is x and isinstance(p_.ctx, ast.Load) and (k_ := _lit_index(p_.slice)) is not None and -n_ <= k_ < n_:
+                sites.append(("slot", p_, k_ % n_))
+            elif id(x) in own_ids and isinstance(p_, ast.Assign) and p_.value is x and len(p_.targets) == 1 and isinstance(p_.targets[0], (ast.Tuple, ast.List)) \
+                    and len(p_.targets[0].elts) == n_ and not any(isinstance(e, ast.Starred) for e in p_.targets[0].elts):
+                sites.append(("unpack", p_, None))
+            elif isinstance(p_, ast.Starred) and isinstance(p_.ctx, ast.Load) and isinstance(pp_ := parent.get(id(p_)), (ast.Call, ast.Tuple, ast.List)) \
+                    and any(y is p_ for y in (pp_.args if isinstance(pp_, ast.Call) else pp_.elts)):
+                sites.append(("star", p_, pp_))          # f(a, *N) / (a, *N): the slots one by one
+            else:
+                ok = False
+                break
+        if not ok or not sites:
+            continue
+        slots = []
+        for i in range(n_):
+            s_ = f"{nm}__{i}"
+            while s_ in taken:
+                s_ += "_"
+            taken.add(s_)
+            slots.append(s_)
+        for st in sts:
+            if n_ == 1:
+                st.targets = [ast.copy_location(ast.Name(id=slots[0], ctx=ast.Store()), st.targets[0])]
+                st.value = st.value.elts[0]
+            else:
+                st.targets = [ast.copy_location(ast.Tuple(elts=[ast.Name(id=s_, ctx=ast.Store()) for s_ in slots], ctx=ast.Store()), st.targets[0])]
+        for kind, p_, k_ in sites:
+            if kind == "slot":
+                _replace_child(parent.get(id(p_)), p_, ast.copy_location(ast.Name(id=slots[k_], ctx=ast.Load()), p_))
+            elif kind == "star":
+                seq = k_.args if isinstance(k_, ast.Call) else k_.elts
+                i_ = next(i for i, y in enumerate(seq) if y is p_)
+                seq[i_:i_ + 1] = [ast.copy_location(ast.Name(id=s_, ctx=ast.Load()), p_) for s_ in slots]
+            else:
+                p_.value = ast.copy_location(ast.Tuple(elts=[ast.Name(id=s_, ctx=ast.Load()) for s_ in slots], ctx=ast.Load()), p_.value)
+        changed = True
+    return changed
 
 
 def _state_symbols(ex: Extractor, fi):
@@ -204,7 +818,8 @@ def r03_2(chk: Check):
     S = chk.src
     ex = hydro_extractor(S)
     for outer in (f"{HY}.solveHydroShock", f"{HY}.efficiencyFactor"):
-        fi, ivp = _event_function(S, outer)
+        ev, ivp = _event_function(S, outer)
+        fi = ev.fi
         chk.touch(fi.name)
         short = outer.split('.')[-1]
         v, xi, T = _state_symbols(ex, fi)
@@ -214,16 +829,20 @@ def r03_2(chk: Check):
         chk.ob("R03.2", fi.where(), f"{short}: front condition is mu(xi, v) xi - csqHighT(T)", ok, f"{val}; {how}", key=f"front|{short}", how=how)
         fo = S.func(outer)
         co = Ctx(S, fo)
-        name = fi.node.name
-        term = [st for st in own_nodes(fo.node) if isinstance(st, ast.Assign) and eqx(st.targets[0], f"{name}.terminal")]
-        chk.ob("R03.2", fo.where(), f"{short}: the front event is terminal", len(term) == 1 and eqx(term[0].value, "True", co), key=f"terminal|{short}")
+        # (the flag solve_ivp reads off the event object: set on the local that holds it, or -- for a method / module-level function handed over
+        # as it is -- on the function where it is defined)
+        term = _terminal_flags(S, fo, ev)
+        chk.ob("R03.2", fo.where(), f"{short}: the front event is terminal", len(term) == 1 and term[0].value is not None and eqx(term[0].value, "True", term[0].ctx),
+               key=f"terminal|{short}")
         # (the event function is by construction the one every solve_ivp call with `events` receives; a second, different one is an AnchorMissing)
-        shock_ivp = [c for c in calls_in(fo.node, "solve_ivp") if kwarg(c, "args", 8) is None]
+        # (the shock integrations: shockWave left at its default or given as True, through `args=` or bound with functools.partial)
+        shock_ivp = [c for c in calls_in(fo.node, "solve_ivp") if (w_ := _ode_of(S, fo, c, co)[1]) is None or eqx(w_, "True", co)]
         ok = bool(ivp) and all(kwarg(c, "events", 6) is not None for c in shock_ivp)
         chk.ob("R03.2", fo.where(), f"{short}: the shock integration is stopped by that event", ok, key=f"events|{short}")
     # template
     fo = S.func(f"{TM}.integratePlasma")
-    ft, ivp = _event_function(S, f"{TM}.integratePlasma")
+    evt, ivp = _event_function(S, f"{TM}.integratePlasma")
+    ft = evt.fi
     chk.touch(ft.name)
     ext = hydro_extractor(S)
     val = ext.single(ft)
@@ -232,17 +851,19 @@ def r03_2(chk: Check):
     ok, how = is_zero(sp.cancel(val / vt) - wantt, chk.seed)
     chk.ob("R03.2", ft.where(), "template: front event is v * (mu(xi, v) xi - cs^2): same zero set for v != 0", ok, f"{val}; {how}", key="front|template", how=how)
     co = Ctx(S, fo)
-    term = [st for st in own_nodes(fo.node) if isinstance(st, ast.Assign) and eqx(st.targets[0], f"{ft.node.name}.terminal")]
+    term = _terminal_flags(S, fo, evt)
     flag = _params(fo)[3] if len(_params(fo)) > 3 else "?"
-    chk.ob("R03.2", fo.where(), "template: the event is terminal exactly when integrating the shock wave", len(term) == 1 and eqx(term[0].value, flag, co),
-           key="terminal|template")
+    # (the flag follows a parameter of the routine: it can only be set inside the routine)
+    chk.ob("R03.2", fo.where(), "template: the event is terminal exactly when integrating the shock wave",
+           len(term) == 1 and term[0].local and term[0].value is not None and eqx(term[0].value, flag, co), key="terminal|template")
     chk.floor("R03.2", 8)
 
 
 def r03_3(chk: Check):
     S = chk.src
     ex = hydro_extractor(S)
-    fo = S.func(f"{HY}.solveHydroShock")
+    # (a record holding the state behind the front is read as the tuple of its fields: records_written_out)
+    fo = records_written_out(S, S.func(f"{HY}.solveHydroShock"))
     g = CFG(fo.node)
     cx = Ctx(S, fo)
     roots = [c for c in calls_in(fo.node, "root_scalar")]
@@ -326,7 +947,7 @@ def r03_45(chk: Check):
     S = chk.src
     ex = hydro_extractor(S)
     # --- solveHydroShock initial data
-    fo = S.func(f"{HY}.solveHydroShock")
+    fo = records_written_out(S, S.func(f"{HY}.solveHydroShock"))
     chk.touch(fo.name)
     go = CFG(fo.node)
     co = Ctx(S, fo)
@@ -347,12 +968,13 @@ def r03_45(chk: Check):
            key="start-velocity|solveHydroShock", how=how)
     x0 = ex.expr(co.resolve(_value_at(go, co, at, y0)), dict(env)) if y0 is not None else None
     chk.ob("R03.4", fo.where(), "solveHydroShock: initial data are (xi, T) = (vw, T+)", isinstance(x0, (list, tuple)) and list(x0) == [vw, Tp], str(x0), key="start-data|solveHydroShock")
-    ok = eqx(kwarg(ivp[0], "fun", 0), "self.shockDE", co) and start is not None and y0 is not None
+    isode, wave = _ode_of(S, fo, ivp[0], co)
+    ok = isode and (wave is None or eqx(wave, "True", co)) and start is not None and y0 is not None
     chk.ob("R03.4", fo.where(), "solveHydroShock integrates self.shockDE from v = mu(vw, v+) downwards with those data", ok, key="ivp|solveHydroShock")
     # --- efficiencyFactor
     # (both efficiency factors are read in their written-out form: a loop over the two waves is written out case by case, result slots and
     # re-used locals become one local per wave)
-    fe = written_out(S, S.func(f"{HY}.efficiencyFactor"))
+    fe = written_out(S, records_written_out(S, S.func(f"{HY}.efficiencyFactor")))
     chk.touch(fe.name)
     ge = CFG(fe.node)
     ce = Ctx(S, fe)
@@ -365,10 +987,15 @@ def r03_45(chk: Check):
     mvp, mvm, mTp, mTm = (fn("getitem")(fm, i) for i in range(4))
     ivps = calls_in(fe.node, "solve_ivp")
     chk.ob("R03.4", fe.where(), "efficiencyFactor integrates the same self.shockDE for the shock and for the rarefaction wave",
-           len(ivps) == 2 and all(eqx(kwarg(c, "fun", 0), "self.shockDE", ce) for c in ivps), key="same-ode")
-    rare = [c for c in ivps if kwarg(c, "args", 8) is not None]
-    shockw = [c for c in ivps if kwarg(c, "args", 8) is None]
-    ok = len(rare) == 1 and eqx(kwarg(rare[0], "args", 8), "(False,)", ce) and kwarg(rare[0], "events", 6) is None
+           len(ivps) == 2 and all(_ode_of(S, fe, c, ce)[0] for c in ivps), key="same-ode")
+    # the wave an integration follows: the value of shockDE's shockWave parameter (`args=(value,)`, or bound with functools.partial; default True)
+    waves = {id(c): _ode_of(S, fe, c, ce)[1] for c in ivps}
+    rare = [c for c in ivps if waves[id(c)] is not None and not eqx(waves[id(c)], "True", ce)]
+    shockw = [c for c in ivps if waves[id(c)] is None or eqx(waves[id(c)], "True", ce)]
+    if len(rare) != 1 or len(shockw) != 1:
+        rare = [c for c in ivps if waves[id(c)] is not None]
+        shockw = [c for c in ivps if waves[id(c)] is None]
+    ok = len(rare) == 1 and eqx(waves[id(rare[0])], "False", ce) and kwarg(rare[0], "events", 6) is None
     chk.ob("R03.4", fe.where(), "the rarefaction wave is integrated with shockWave=False (low-T sound speed) and no front event", ok, key="rarefaction-args")
     if len(rare) != 1 or len(shockw) != 1:
         raise AnchorMissing("efficiencyFactor: the shock-wave and the rarefaction-wave integration not found")
@@ -415,7 +1042,7 @@ def r03_45(chk: Check):
     chk.ob("R03.5", fe.where(), "kappa is the sum of the two contributions", len(found) == 2 and sp.simplify(full.value - found[0] - found[1]) == 0, str(full.value)[:100],
            key="kappa-sum")
     # template sibling
-    ft = written_out(S, S.func(f"{TM}.efficiencyFactor"))
+    ft = written_out(S, records_written_out(S, S.func(f"{TM}.efficiencyFactor")))
     chk.touch(ft.name)
     ct = Ctx(S, ft)
     ext = hydro_extractor(S)
